@@ -427,14 +427,17 @@ Definition plan_dtype (p : plan) : res dtype :=
 (* a supplied cell and where it comes from *)
 Inductive src :=
 | FromArr (d : dtype) (v : cv)     (* a cell of an array of dtype d *)
-| FromElem (e : elem).             (* the element handed to the operation *)
+| FromElem (e : elem)              (* the element handed to the operation *)
+| FromVia (d mid : dtype) (v : cv). (* a cell of an array of dtype d that is first converted to dtype mid (concat_resolved of
+                                      the value blocks, type_blocks.py:1543) and then written into the result *)
 
-Definition src_val (s : src) : cv := match s with FromArr _ v => v | FromElem e => elem_val e end.
+Definition src_val (s : src) : cv := match s with FromArr _ v => v | FromElem e => elem_val e | FromVia _ _ v => v end.
 
 Definition survives (dr : dtype) (s : src) : bool :=
   match s with
   | FromArr d v => holds_arr d dr v
   | FromElem e => holds_elem dr e
+  | FromVia d mid v => holds_arr d mid v && holds_arr mid dr v
   end.
 
 (* M: result dtype by the plan; a surviving cell is stored as an inhabitant of that dtype that is `same` as the
